@@ -137,6 +137,12 @@ pub fn check(c: &Call, receivers: &[(&str, &MCTPSMBusContext)], rep: &mut Report
             (_, DecOut::Panic(p)) => {
                 rep.violation(&format!("{}:decode-panic:{}", kf, p.kind), || format!("decode_packet panicked on the encoder's own output {}: {} (receiver {})", hex(&pkt), p.long(), name), case);
             }
+            // the identity of this failure is "the decoder rejects this encoder's own output"; which
+            // error value it uses to say so is not part of the key (a renamed or new error variant
+            // is the same defect), it is in the detail text
+            (Want::Ok { .. }, g @ DecOut::Err { .. }) => {
+                rep.violation(&format!("{}:own-output-rejected", kf), || format!("decode_packet({}) = {}, expected {:?} (receiver {})", hex(&pkt), g.brief(), w, name), case);
+            }
             (_, g) => {
                 rep.violation(&format!("{}:decode-{}", kf, g.class()), || format!("decode_packet({}) = {}, expected {:?} (receiver {})", hex(&pkt), g.brief(), w, name), case);
             }
